@@ -16,7 +16,7 @@ import random
 
 from vlib import tlc
 from vlib.comp import plan_walks
-from vlib.obsharness import simulate_ports, fan_out, validate_batch, corrupt_check
+from vlib.obsharness import simulate_ports, fan_out, validate_batch, validate_with_selftest, PROCS
 
 KINDS = ["onehot", "registered"]
 NAMES = {"onehot": "OneHotRoundRobin", "registered": "RoundRobin"}
@@ -158,8 +158,12 @@ def violation_from_reject(rep, tr, r):
                    "schedule": [c["req"] for c in tr["cycles"][:last]]})
 
 
-def validate(rep, traces):
-    rej, res = validate_batch("RoundRobinTrace", [{"cfg": t["cfg"], "cycles": t["cycles"]} for t in traces])
+def validate(rep, traces, corrupted=None):
+    tl = [{"cfg": t["cfg"], "cycles": t["cycles"]} for t in traces]
+    if corrupted is None:
+        rej, res = validate_batch("RoundRobinTrace", tl)
+    else:
+        rej, res = validate_with_selftest("RoundRobinTrace", tl, corrupted, rep)
     rep.add("traces_validated_against_impl", len(traces))
     rep.add("trace_states", res.distinct)
     for tid, r in sorted(rej.items()):
@@ -167,8 +171,8 @@ def validate(rep, traces):
     return rej
 
 
-def self_test(rep, traces, rng):
-    """Corrupt one observed field (grant or valid) of accepted traces: must be rejected there."""
+def corrupted_traces(traces, rng):
+    """Corrupt one observed field (grant or valid) of recorded traces: must be rejected there."""
     cor = []
     good = [t for t in traces if t["cfg"]["count"] >= 2]
     for i in range(16):
@@ -191,7 +195,7 @@ def self_test(rep, traces, rng):
             c["grant"] = (c["grant"] + 1 + rng.randrange(n - 1)) % n
             what = "grant moved to another input"
         cor.append(({"cfg": t["cfg"], "cycles": t["cycles"]}, j + 1, f"{t['cfg']} line {j + 1}: {what}"))
-    corrupt_check("RoundRobinTrace", cor, rep, "selftest")
+    return cor
 
 
 # ---------------------------------------------------------------------------------------
@@ -199,7 +203,7 @@ def self_test(rep, traces, rng):
 def run(rep):
     thorough = rep.tier == "thorough"
     # 1. exhaustive model
-    res = tlc.run("RoundRobinMC", MC_FULL, workers="auto", timeout=1200)
+    res = tlc.run("RoundRobinMC", MC_FULL, workers=min(PROCS, 8), timeout=1200)
     if res.invariant_violated:
         rep.violation({"component": "RoundRobin model", "what": f"model violates {res.invariant_violated}",
                        "clauses": ["MC:" + res.invariant_violated], "tlc_tail": res.out.splitlines()[-60:]})
@@ -256,8 +260,7 @@ def run(rep):
             traces.append(tr)
     for k, v in impl_stats(traces).items():
         rep.add("impl_" + k, v)
-    validate(rep, traces)
-    self_test(rep, traces, random.Random(rep.seed))
+    validate(rep, traces, corrupted_traces(traces, random.Random(rep.seed)))
     rep.sample({"kind": "impl-trace", "cfg": traces[0]["cfg"], "first_cycles": traces[0]["cycles"][:4]})
 
     rep.coverage["rule"] = (
